@@ -27,6 +27,9 @@ class Elem:
         elif kind == 'str':
             st.assume(z3.And(z3.UGE(self.c, 32), z3.ULE(self.c, 126))); self.value = str_value([self.c])
         elif kind == 'estr': self.value = str_value([])
+        elif kind == 'float':
+            self.f = z3.FP(f'f{i}', z3.Float64()); st.assume(z3.Not(z3.fpIsNaN(self.f))); st.assume(z3.Not(z3.fpIsInf(self.f)))
+            self.value = value_scalar(scalar_float(Float(self.f)))
         elif kind == 'obj':
             keys = ['id']; vals = [value_scalar(scalar_int(Int(i, 'i64')))]
             if prop_kind == 'int': keys.append('p'); vals.append(value_scalar(scalar_int(Int(self.p, 'i64'))))
@@ -41,6 +44,9 @@ class Elem:
         if self.kind == 'bool': return z3.is_true(m.eval(self.b, model_completion=True))
         if self.kind == 'str': return chr(m.eval(self.c, model_completion=True).as_long())
         if self.kind == 'estr': return ''
+        if self.kind == 'float':
+            import struct
+            return struct.unpack('<d', struct.pack('<Q', m.eval(z3.fpToIEEEBV(self.f), model_completion=True).as_long()))[0]
         d = {'id': self.i}
         if self.prop_kind == 'int': d['p'] = m.eval(self.p, model_completion=True).as_signed_long()
         elif self.prop_kind == 'nil': d['p'] = None
@@ -393,6 +399,51 @@ def ob_map_where_join(chk, P, n_max):
         ob.absorb(ex)
 
 
+def ob_sort_comparator(chk, P, full=False):
+    with chk.obligation('sort/comparator-total-order', "the comparator sort hands to the standard library (nil_safe_compare(..).unwrap_or(Equal), the real body) is a total preorder on every triple of elements: "
+                        "a <= b and b <= c imply a <= c. std's sort_by is allowed to panic ('user-provided comparison function does not correctly implement a total order', arrays of more than 20 elements) "
+                        'or to return any order when it is not, so a violation on a triple is confirmed natively by sorting 60-element arrays drawn from the three values',
+                        {'triples': 'every combination of kinds over nil, integer (any i64), boolean, one-character string, plus float (any finite f64) in five combinations (quick) / all 125 combinations (thorough); contents symbolic',
+                         'outside': 'NaN (cannot be written in template data), arrays and objects as elements'}) as ob:
+        import random
+        ex = Executor(P, models_with([])); ex.seed = chk.seed; ex.max_steps = 50000
+        fn = P.find(r'^fn (?:\w+::)*filters::array::nil_safe_compare\(', 'lib')
+        def cmp3(st, x, y):
+            for s2, kind, val in ex.run(fn, [st.ref(x.value), st.ref(y.value)], st):
+                if kind != 'ret':
+                    yield s2, None; continue
+                if val.variant == 'None': yield s2, 0
+                else:
+                    o = s2.deref_all(val.items[0])
+                    yield s2, {'Less': -1, 'Equal': 0, 'Greater': 1}[o.variant]
+        triples = list(itertools.product(['nil', 'int', 'float', 'bool', 'str'], repeat=3)) if full else \
+            list(itertools.product(['nil', 'int', 'bool', 'str'], repeat=3)) + [('int', 'float', 'int'), ('float', 'int', 'float'), ('float', 'float', 'float'), ('int', 'float', 'str'), ('float', 'str', 'int')]
+        for kinds in triples:
+            st = State(); a, b, c = mk_elems(st, kinds)
+            for s1, ab in cmp3(st, a, b):
+                for s2, bc in cmp3(s1.clone(), b, c):
+                    for s3, ac in cmp3(s2.clone(), a, c):
+                        ob.paths += 1; ob.reached()
+                        if None in (ab, bc, ac): bad = 'the comparator panics'
+                        elif ab <= 0 and bc <= 0 and ac > 0: bad = f'a <= b ({ab}), b <= c ({bc}) but a > c'
+                        elif ab >= 0 and bc >= 0 and ac < 0: bad = f'a >= b ({ab}), b >= c ({bc}) but a < c'
+                        else: bad = None
+                        m = ob.decide(ex, s3.conds, z3.BoolVal(bad is not None))
+                        if m is None: continue
+                        vals = [e.concrete(m) for e in (a, b, c)]
+                        present = {k for k in kinds if k != 'nil'}
+                        if present <= {'int', 'float'} and present == {'int', 'float'}: cls = 'integer-float-rounding'
+                        elif len(present - {'float'} | ({'int'} if 'float' in present else set())) > 1: cls = 'mutually-incomparable-kinds'
+                        else: cls = 'comparable-kinds'
+                        role = 'sort/panic/comparator-not-a-total-order/' + cls
+                        for seed in range(4):
+                            rnd = random.Random(seed); arr = [rnd.choice(vals) for _ in range(60)]
+                            ob.violation(role, f'sort comparator is not transitive on {py_json(vals)}: {bad}; sorting a 60-element array of these values', {'triple': vals, 'array': arr},
+                                         {'kind': 'template', 'parser': 'stdlib', 'template': "{{ a | sort | join: ',' }}", 'globals': {'a': arr}}, lambda r: r.get('outcome') == 'panic')
+            ob.sample({'kinds': list(kinds)})
+        ob.absorb(ex)
+
+
 def py_slice_list(vals, off, ln):
     n = len(vals)
     if ln < 1: return None
@@ -467,6 +518,7 @@ def run(chk):
     quick = chk.tier == 'quick'
     n = 4 if quick else 5
     ob_sort(chk, P, n)
+    ob_sort_comparator(chk, P, full=not quick)
     ob_sort_natural(chk, P, n)
     ob_uniq(chk, P, n)
     ob_simple_array_filters(chk, P, 3 if quick else 4)
